@@ -55,7 +55,10 @@ func VerifH15p() {
 	rangeQ := sym.Choice("range", 2) == 1
 	sym.SetGOMAXPROCS(2 * sym.IntRange("shards", 1, 2))
 	e := verifEngine(logicalplan.DefaultOptimizers, sym.Int64("lookback", 1, verifR))
-	sym.KnownEvent("KF-C13-D18", "zzverif/stub.")
+	// D18: goroutines without any recover on the unchanged tree
+	sym.KnownEvent("KF-C13-D18", "concurrencyOperator).pull")
+	sym.KnownEvent("KF-C13-D18", "coalesceOperator).Next$1")
+	sym.KnownEvent("KF-C13-D18", "worker.Worker).start")
 	var res *promql.Result
 	if rangeQ {
 		res = verifExecRange(e, store, qs, start, start+step, step)
